@@ -176,7 +176,19 @@ def run_case(case):
         d2 = describe(make(rep(case["to"]), rep(case["from"])))
     else:
         d1 = describe(make(a, b))
-        d2 = describe(make(b, a))
+        if int(abs(a[0]) * 1e3) % 4 == 0:
+            # the swapped execution on a tracer object that was used for the pair as given and then re-pointed by assignment
+            used = make(a, b)
+            try:
+                [(q.path_length, q.emitted_direction) for q in used.solutions]
+                used.exists
+            except Exception:       # noqa: BLE001 -- reported by the execution "as given"
+                pass
+            used.from_point, used.to_point = b, a
+            d2 = describe(used)
+            geo["swapped_execution"] = "same tracer object re-pointed by assignment"
+        else:
+            d2 = describe(make(b, a))
     d3 = describe(make(R @ a + sh, R @ b + sh))
     for nm, d in (("as given", d1), ("swapped", d2), ("moved", d3)):
         v.check(d["error"] is None, "tracer reports solutions or none for in-range points (no exception)", execution=nm, error=d["error"], **geo)
@@ -187,13 +199,35 @@ def run_case(case):
         v.check(d["exists"] == (len(d["paths"]) > 0), "exists <=> the solution list is non-empty", execution=nm, exists=d["exists"], n=len(d["paths"]), **geo)
         if gradient:
             v.check(len(d["paths"]) in (0, 2), "a gradient-index tracer reports no solution or two", execution=nm, n=len(d["paths"]), **geo)
-    ok = v.check(len(s1) == len(s2) == len(s3), "swapping / moving the endpoints keeps the number of solutions", n=[len(s1), len(s2), len(s3)], **geo)
+    fine = None
+    if fam.startswith("layered") and not (len(s1) == len(s2) == len(s3)):
+        # mechanism observable for the known finding "fixed launch-angle scan": the same three executions with a 20 times finer
+        # scan.  If the counts then agree (and no execution loses a solution), the coarse mismatch was a pair of roots inside one
+        # scan interval; if they still differ, it is something else.
+        try:
+            from pyrex.custom.layered_ice import LayeredRayTracer
+            FT = type("FineScan", (LayeredRayTracer,), {"_angle_checks": 20 * (LayeredRayTracer._angle_checks - 1) + 1})
+            aa, bb = (rep(case["from"]), rep(case["to"])) if case.get("int_endpoints") else (a, b)
+            fine = [len(FT(aa, bb, ice).solutions), len(FT(bb, aa, ice).solutions), len(FT(R @ a + sh, R @ b + sh, ice).solutions)]
+        except Exception as e:       # noqa: BLE001
+            fine = "fine scan failed: " + type(e).__name__
+    ok = v.check(len(s1) == len(s2) == len(s3), "swapping / moving the endpoints keeps the number of solutions", n=[len(s1), len(s2), len(s3)], n_with_20x_finer_angle_scan=fine, **geo)
     sample = dict(geo, n_solutions=len(s1))
     if not ok or not s1:
         return v.result(decided=True, nontrivial=False, sample=sample)
 
     def att(p):
         return np.asarray(p.attenuation(FREQS), float)
+
+    def leg_spans(p):
+        """Depth extents of the legs the numeric tracer integrates over (mechanism observable of kf_basic_leg_shorter_than_step)."""
+        try:
+            if getattr(p, "direct", True):
+                return [abs(float(p.z1) - float(p.z0))]
+            zt = float(p.z_turn) - float(p.z_turn_proximity)
+            return [abs(zt - float(p.z0)), abs(zt - float(p.z1))]
+        except Exception:       # noqa: BLE001
+            return []
 
     def canc(p):
         if fam == "layered-exp":
@@ -245,6 +279,8 @@ def run_case(case):
     for j, (p, w) in enumerate(zip(s1, s3)):
         L = float(p.path_length)
         det = dict(geo, solution=j, L=L, cancellation_bound_m=canc(p), beta_window=on_beta_window(p, w))
+        if fam == "basic":
+            det["leg_depth_spans"] = leg_spans(p)
         v.close("translated/rotated: equal path length", abs(p.path_length - w.path_length) / L, gtol, **det)
         v.close("translated/rotated: equal time of flight", abs(p.tof - w.tof) / p.tof, gtol, **det)
         v.close("translated/rotated: horizontal direction components move with the geometry, vertical ones unchanged",
@@ -263,6 +299,8 @@ def run_case(case):
         q = s2[i]
         L = float(p.path_length)
         det = dict(geo, solution=j, L=L, cancellation_bound_m=canc(p), beta_window=on_beta_window(p, q))
+        if fam == "basic":
+            det["leg_depth_spans"] = leg_spans(p)
         v.close("swapped: equal path length", abs(p.path_length - q.path_length) / L, gtol, **det)
         v.close("swapped: equal time of flight", abs(p.tof - q.tof) / p.tof, gtol, **det)
         v.close("swapped: emitted/received directions exchanged and reversed",
@@ -320,7 +358,8 @@ def kf_basic_leg_shorter_than_step(case, viol):
     """Numeric tracer: z_integral uses int(|dz_leg| / dz) trapezoid intervals, which is zero for a leg spanning less than one
     step in depth: path length, time of flight (and attenuation exponent) of such a solution are exactly 0."""
     d = viol["detail"]
-    return (d.get("family") == "basic" and "from" in d and abs(d["from"][2] - d["to"][2]) < d.get("dz", 0.0) and d.get("L") == 0.0
+    spans = d.get("leg_depth_spans") or [abs(d["from"][2] - d["to"][2])] if "from" in d else []
+    return (d.get("family") == "basic" and bool(spans) and max(spans) < d.get("dz", 0.0) and d.get("L") == 0.0
             and viol["clause"].endswith(("equal path length", "equal time of flight", "equal attenuation")))
 
 
@@ -349,4 +388,12 @@ def fx_uniform_reflection_points(case, viol):
 def kf_layered_angle_scan(case, viol):
     """LayeredRayTracer brackets its roots by a fixed scan of launch angles: a pair of roots inside one scan interval is
     missed, so the number of solutions can differ between an endpoint pair and its swapped / moved copy."""
-    return str(viol["detail"].get("family", "")).startswith("layered") and viol["clause"] == "swapping / moving the endpoints keeps the number of solutions"
+    d = viol["detail"]
+    fine = d.get("n_with_20x_finer_angle_scan")
+    if not (str(d.get("family", "")).startswith("layered") and viol["clause"] == "swapping / moving the endpoints keeps the number of solutions"):
+        return False
+    # explained by the scan resolution only if the finer scan makes the three executions agree without losing any solution
+    # mechanism established by measurement: the number of solutions of at least one of the three executions changes when
+    # nothing but the resolution of the launch-angle scan changes (roots next to the NaN edges / jumps of r(theta) are found
+    # or lost depending on where the scan points fall).  Counts that are unequal *and* independent of the scan are not this.
+    return isinstance(fine, list) and list(fine) != list(d.get("n", []))
